@@ -162,9 +162,17 @@ def generate(repo):
 
     def expose():
         fn = get_def(dt, 'Detector.expose')
-        adc, cast, lets, res, _ = expose_items(fn)
+        adc, cast, lets, res, rest = expose_items(fn)
         if adc is None:
             raise Untranslatable('adc_cap not found')
+        # everything after the cast must be shape handling, the optional look-up table and the return: no further arithmetic
+        for st in rest:
+            src = ast.unparse(st)
+            if src.startswith('output = output.reshape(') or src == 'return output' \
+                    or src == 'if self.lut is not None:\n    output = apply_lut(output, self.lut)' \
+                    or (src.startswith('if frames == 1:\n    output = output[0') and len(st.body) == 1 and not st.orelse):
+                continue
+            raise Untranslatable(f'statement after the integer cast: {src[:60]}')
         body = '\n  '.join(lets + [res])
         return (f'def adcCap (bits : Int) : Int := {adc}\n\n'
                 f'def castBits (bits : Int) : Int := {cast}\n\n'
@@ -189,17 +197,21 @@ def generate(repo):
         if len(resh) != 1 or src[-1] != 'return output':
             raise Untranslatable('reshape / return structure of expose')
         k = resh[0]
-        if src[k] != 'output = output.reshape((frames, *aerial_img.shape))':
-            return False
+        if src[k] not in ('output = output.reshape((frames, *aerial_img.shape))', 'output = output.reshape((frames,) + aerial_img.shape)',
+                          'output = output.reshape(frames, *aerial_img.shape)'):
+            if src[k] in ('output = output.reshape((*aerial_img.shape, frames))', 'output = output.reshape(aerial_img.shape)'):
+                return False                   # recognised wrong: frames last / frames dropped
+            return None
         nxt = src[k + 1] if k + 1 < len(src) else ''
         if not nxt.startswith('if frames'):
             return False                       # single frame no longer squeezed
-        if nxt not in ('if frames == 1:\n    output = output[0, :, :]', 'if frames == 1:\n    output = output[0]'):
-            if nxt.startswith('if frames == 1:'):
-                raise Untranslatable(f'squeeze written as {nxt!r}')
-            return False
-        return True
-    fact_item('exposeShapeIsFramesByImage', 'prysm/detector.py:Detector.expose', lambda: get_def(dt, 'Detector.expose'), expose_shape)
+        if nxt in ('if frames == 1:\n    output = output[0, :, :]', 'if frames == 1:\n    output = output[0]',
+                   'if frames == 1:\n    output = output[0, ...]'):
+            return True
+        if nxt.startswith('if frames == 1:'):
+            return None
+        return False
+    g.fact('exposeShapeIsFramesByImage', 'prysm/detector.py:Detector.expose', expose_shape)
 
     # ------------------------------------------------------------------ bindown / tile
     def bindown():
@@ -341,12 +353,30 @@ def generate(repo):
     g.item('wb_prescale', 'prysm/bayer.py:wb_prescale', lambda: get_def(by, 'wb_prescale'),
            site_table('wb_prescale', 'prescaleGain', 'gain'), f'def prescaleGain : Cfa → Site → Gain := {M}.prescaleGain')
 
+    def postscale_gains():
+        fn = get_def(by, 'wb_postscale')
+        seen = {}
+        for st in fn.body:
+            if isinstance(st, ast.AugAssign) and isinstance(st.op, ast.Mult) and isinstance(st.target, ast.Subscript) \
+                    and ast.unparse(st.target.value) == 'rgb':
+                idx = ast.unparse(st.target.slice)
+                if not idx.startswith('(..., ') or not isinstance(st.value, ast.Name):
+                    raise Untranslatable(f'wb_postscale: {ast.unparse(st)}')
+                seen[int(idx[6:-1])] = st.value.id
+        if sorted(seen) != [0, 1, 2] or not set(seen.values()) <= {'wr', 'wg', 'wb'}:
+            raise Untranslatable(f'wb_postscale scales channels {seen}')
+        ch = ['red', 'green', 'blue']
+        return _match('postscaleGain', 'Chan → Gain3', [(f'.{ch[k]}', f'.{seen[k]}') for k in range(3)])
+    g.item('wb_postscale', 'prysm/bayer.py:wb_postscale', lambda: get_def(by, 'wb_postscale'), postscale_gains,
+           f'def postscaleGain : Chan → Gain3 := {M}.postscaleGain')
+
     def deinterlace():
         fn = get_def(by, 'demosaic_deinterlace')
         src = [ast.unparse(s) for s in fn.body if not isinstance(s, ast.Expr)]
         if len(src) != 3 or src[0] != 'r, g1, g2, b = decomposite_bayer(img, cfa)' or not src[1].startswith('g = '):
             raise Untranslatable('demosaic_deinterlace structure')
-        if src[2] != 'return np.stack([r, g, b], axis=2)':
+        if src[2] not in ('return np.stack([r, g, b], axis=2)', 'return np.stack([r, g, b], axis=-1)', 'return np.stack((r, g, b), axis=2)',
+                          'return np.dstack([r, g, b])', 'return np.dstack((r, g, b))'):
             if src[2].startswith('return np.stack(['):
                 return False                   # channel order / axis changed
             raise Untranslatable('demosaic_deinterlace return')
@@ -452,6 +482,7 @@ def generate(repo):
             loop = loops[0]
             env = {'ratio': 'ratio'}
             term = None
+            perplane = [True]
             for st in loop.body:
                 if isinstance(st, ast.Assign) and isinstance(st.targets[0], ast.Name):
                     nm = st.targets[0].id
@@ -459,6 +490,10 @@ def generate(repo):
                     if nm == 'plane':
                         continue
                     if nm == 'sat' and src == 'saturation[i]':
+                        env['sat'] = 'sat'
+                        continue
+                    if nm == 'sat' and src.startswith('saturation[') and isinstance(st.value.slice, ast.Constant):
+                        perplane[0] = False          # every plane compared with the same entry: recognised wrong
                         env['sat'] = 'sat'
                         continue
                     if nm == 'mx' and src == 'plane.max()':
@@ -488,15 +523,24 @@ def generate(repo):
             init = [ast.unparse(v) for v in find_assigns(fn, 'ratio')][0]
             if init != '1':
                 raise Untranslatable('ratio does not start at 1')
-            divs = sorted(ast.unparse(n) for n in ast.walk(fn) if isinstance(n, ast.Assign) and ast.unparse(n.value).endswith('/ ratio'))
+            divs = sorted({ast.unparse(n.targets[0]) for n in ast.walk(fn) if isinstance(n, ast.Assign)
+                           and isinstance(n.value, ast.BinOp) and isinstance(n.value.op, ast.Div)
+                           and ast.unparse(n.value.right) == 'ratio' and ast.unparse(n.value.left) == ast.unparse(n.targets[0])}
+                          | {ast.unparse(n.target) for n in ast.walk(fn) if isinstance(n, ast.AugAssign)
+                             and isinstance(n.op, ast.Div) and ast.unparse(n.value) == 'ratio'})
+            gains = {'wb_prescale': ['wb', 'wg1', 'wg2', 'wr'], 'wb_postscale': ['wb', 'wg', 'wr']}[pyfn]
+            if not set(divs) <= set(gains):
+                raise Untranslatable(f'division by the ratio of {divs}')
             return (f'def {lname}Step {{K : Type}} [Num K] [LT K] [DecidableLT K] (ratio mx sat : K) : K :=\n  {term}\n\n'
                     f'def {lname}Planes : Nat := {count}\n\n'
-                    f'def {lname}DividesEveryGain : Bool := {"true" if len(divs) == count else "false"}')
+                    f'def {lname}SaturationPerPlane : Bool := {"true" if perplane[0] else "false"}\n\n'
+                    f'def {lname}DividesEveryGain : Bool := {"true" if divs == gains else "false"}')
         return build
     for pyfn, lname, cnt in (('wb_prescale', 'wbPreSafe', 4), ('wb_postscale', 'wbPostSafe', 3)):
         g.item(f'{pyfn}.safe', f'prysm/bayer.py:{pyfn}', (lambda p=pyfn: get_def(by, p)), safe_step(pyfn, lname),
                f'def {lname}Step {{K : Type}} [Num K] [LT K] [DecidableLT K] (ratio mx sat : K) : K := {M}.safeStep ratio mx sat\n'
                f'def {lname}Planes : Nat := {cnt}\n'
+               f'def {lname}SaturationPerPlane : Bool := true\n'
                f'def {lname}DividesEveryGain : Bool := true')
 
     return g.finish()
